@@ -24,6 +24,10 @@ Proof.
   intros i Hi. replace (a + k + i) with (a + (k + i)) by lia. replace (b + k + i) with (b + (k + i)) by lia.
   apply H5; lia.
 Qed.
+Lemma agree_prefix g a h b n m : agree g a h b n -> 0 <= m <= n -> agree g a h b m.
+Proof.
+  unfold agree; intros (H1 & H2 & H3 & H4 & H5) Hm; repeat split; try lia. intros i Hi. apply H5; lia.
+Qed.
 Lemma agree_rd g a h b n k m : agree g a h b n -> 0 <= k -> 0 <= m -> k + m <= n ->
   mp4_rd g (a + k) m = mp4_rd h (b + k) m.
 Proof.
